@@ -9,6 +9,7 @@ liveness — are about) computes exactly what the translated programs compute, f
 tested `< 1` (dead → no send) and after both header writes, and nothing is sent twice.
 -/
 import PrimaiteModel.Model.Forward
+import PrimaiteModel.Lemmas.ForwardInv
 import PrimaiteModel.Gen.ForwardRoute
 namespace Primaite.Forward
 open Primaite.Route
@@ -117,6 +118,23 @@ theorem C08_gen_route_frame_process (fuel : Nat) (st : St) (n i : Nat) (f : Fram
         simp only [Result.nextHop?]
         (repeat' split) <;> simp_all [Frame.stamp]
     · split <;> rfl
+
+/-- the hypothesis `hown` discharged at the call site: a powered-on plain router that receives, on any of its interfaces, a frame its
+first verdict permits and whose destination address no interface carries, learns the source pair and then runs the TRANSLATED
+`process_frame` — for every state, route table, ARP cache, frame and fuel. -/
+theorem C08_gen_route_frame_recv (fuel : Nat) (st : St) (n i : Nat) (f : Frame) (nd : Node) (ifc : Iface)
+    (hn : st.node? n = some nd) (hi : st.iface? n i = some ifc) (hfw : nd.fw = none) (hon : nd.on = true)
+    (hacl : aclDenies nd i f.pl = false) (hown : ifaceWithIp nd.ifaces f.dstIp = none) :
+    routerRecv (fuel + 2) st n i f = runProcess fuel n (st.modNode n (fun nd => nd.addArp f.srcIp f.srcMac i)) f := by
+  rw [routerRecv]
+  simp only [hn, hi, hfw, hon, hacl, hown, Option.isNone_none, Bool.not_true, Bool.and_false, Bool.false_eq_true, if_false]
+  refine C08_gen_route_frame_process fuel _ n i f (nd.addArp f.srcIp f.srcMac i) ?_ ?_
+  · rw [node?_modNode]; simp [hn]
+  · have : (nd.addArp f.srcIp f.srcMac i).ifaces = nd.ifaces := by
+      unfold Node.addArp; split
+      · rfl
+      · split <;> rfl
+    rw [this]; exact hown
 
 /-! ### what the translated programs say about TTL and the header, without the model -/
 
